@@ -142,15 +142,15 @@ variable {K V : Type} (cmp : K → K → Ordering)
 def iterSeek (t : Treap K V) (rg : Range K) (k : K) (exact greater : Bool) : Option (K × V) :=
   limitIter cmp rg (seekAux cmp k exact greater t none)
 
-/-- `First`: with a start key a seek; otherwise the left-most node WITHOUT a limit check, and an
-empty tree leaves the position as it was (both as in the Go code). -/
+/-- `First`: with a start key a seek; otherwise the left-most node WITHOUT a limit check (as in the
+Go code); an empty tree leaves the iterator exhausted. -/
 def iterFirst (t : Treap K V) (rg : Range K) (st : IterSt K V) : IterSt K V × Bool :=
   match rg.start with
   | some s => let c := iterSeek cmp t rg s true true; (⟨false, c⟩, c.isSome)
   | none =>
     match leftmost t with
     | some x => (⟨false, some x⟩, true)
-    | none => (⟨false, st.cur⟩, false)
+    | none => (⟨false, none⟩, false)
 
 def iterLast (t : Treap K V) (rg : Range K) (st : IterSt K V) : IterSt K V × Bool :=
   match rg.limit with
@@ -158,7 +158,7 @@ def iterLast (t : Treap K V) (rg : Range K) (st : IterSt K V) : IterSt K V × Bo
   | none =>
     match rightmost t with
     | some x => (⟨false, some x⟩, true)
-    | none => (⟨false, st.cur⟩, false)
+    | none => (⟨false, none⟩, false)
 
 /-- `Next`; the walk over the parent stack is modelled by its re-seek form (`ForceReseek` path):
 the successor of the current key. -/
